@@ -109,6 +109,24 @@ class Aliased:
 class NoDefaultAll:
     a: int
     b: int
+
+@dataclass
+class KwBase:
+    a: int
+    _: dataclasses.KW_ONLY
+    debug: int = 0
+
+@with_fields_set
+@dataclass
+class KwChild(KwBase):
+    name: int = 0
+
+@with_fields_set
+@dataclass
+class KwMixed:
+    a: int
+    flag: int = field(default=0, kw_only=True)
+    b: int = 0
 '''
 
 # class -> (ordered init params [(name, has_default, default, is_initvar)], post_init_fields, extra stored fields {name: value after init}, aliases, post_init effects)
@@ -123,6 +141,10 @@ POOL: Dict[str, dict] = {
     "DecoratedFromDecorated": dict(params=[("a", False, None), ("b", True, 0), ("c", True, 0)]),
     "Aliased": dict(params=[("a_b", False, None), ("c", True, 0), ("d", True, None)], aliases={"a_b": "x", "c": "see"}),
     "NoDefaultAll": dict(params=[("a", False, None), ("b", False, None)]),
+    # keyword-only fields are moved to the end of the generated __init__ (3.10+): positional arguments
+    # map to the signature, not to the declaration order
+    "KwChild": dict(params=[("a", False, None), ("name", True, 0), ("debug", True, 0)], kwonly={"debug"}),
+    "KwMixed": dict(params=[("a", False, None), ("b", True, 0), ("flag", True, 0)], kwonly={"flag"}),
 }
 
 
@@ -287,8 +309,9 @@ def explore_class(mod, cname, st: infra.Stats, max_depth: int):
             kw = {n: val[n] for n in required + list(sub)}
             inits.append(("kw", kw))
             inits.append(("deser", {k2: v for k2, v in kw.items()}))
-    for n in range(len(required), len(params) + 1):
-        inits.append(("pos", [val[p[0]] for p in params[:n]]))
+    positional = [p for p in params if p[0] not in spec.get("kwonly", ())]
+    for n in range(len(required), len(positional) + 1):
+        inits.append(("pos", [val[p[0]] for p in positional[:n]]))
     fields = [n for n, _, _ in params if n not in initvars] + list(spec.get("noinit", {}))
     ops = []
     for f in fields:
